@@ -464,6 +464,9 @@ func GenLayout(t *rapid.T, label string, n int) *Layout {
 		if (len(files[i].Docs) == 1 || files[i].AsList) && rapid.Bool().Draw(t, fmt.Sprintf("%sjson%d", label, i)) {
 			files[i].Path = strings.TrimSuffix(strings.TrimSuffix(files[i].Path, ".yaml"), ".yml") + ".json"
 		}
+		if !files[i].AsList && !strings.HasSuffix(files[i].Path, ".json") && rapid.IntRange(0, 2).Draw(t, fmt.Sprintf("%sstyled%d", label, i)) == 0 {
+			files[i].Style = rapid.IntRange(1, 4).Draw(t, fmt.Sprintf("%sstyle%d", label, i))
+		}
 	}
 	return &Layout{Files: files}
 }
